@@ -204,6 +204,92 @@ void qx_harness(void)
                 clause='after Rename the real lookup finds the new key and the untouched keys and not the old key')
 
 
+def _table3(extra_keys=1):
+    return """
+static char qx_keys[4];
+static unsigned int g_h[4];   /* symbolic hash per key; StringUtils::Hash itself is enforced separately */
+unsigned int StringUtils_Hash__char(const char *key, unsigned int length) { return g_h[key - qx_keys] | 0x80000000u; }
+static void qx_table3(struct %(HT)s *t)
+{
+  char c0, c1, c2, c3;
+  __CPROVER_assume(c0 != c1 && c0 != c2 && c0 != c3 && c1 != c2 && c1 != c3 && c2 != c3);
+  qx_keys[0] = c0; qx_keys[1] = c1; qx_keys[2] = c2; qx_keys[3] = c3;
+  { unsigned int h0, h1, h2, h3; g_h[0] = h0; g_h[1] = h1; g_h[2] = h2; g_h[3] = h3; }
+  t->capacity_ = 4; t->index_ = 3;
+  t->hashTable_ = (unsigned int *)malloc(4 * (sizeof(unsigned int) + sizeof(%(HIT)s)));
+  __builtin_memset(t->hashTable_, 0, 4 * (sizeof(unsigned int) + sizeof(%(HIT)s)));
+  %(HIT)s *st = (%(HIT)s *)(t->hashTable_ + 4);
+  for (unsigned int i = 0; i < 3; i++) { st[i].Key.storage_ = &qx_keys[i]; st[i].Key.length_ = 1; st[i].Hash = g_h[i] | 0x80000000u; }
+  %(GEN)s(t);
+}
+""" % dict(HT=HT, HIT=HIT, GEN=FN_GEN)
+
+
+def remove_job():
+    """bounded stand-in: the real HashTable::Remove on a table of capacity 4 holding three one-unit keys with symbolic hashes (every collision pattern,
+    so the removed entry is the head, the middle or the tail of its chain), chains built by the real generateHash; one key is removed, then a second one;
+    after each removal the real lookup finds exactly the keys that were not removed, and the slot count is unchanged"""
+    FN_REM = HT + '_Remove__const_char_p_unsigned_int_c'
+    FN_HAS = HT + '_Has__const_char_p_const_unsigned_int_c'
+    h = _table3() + '''
+void qx_harness(void)
+{
+  struct %(HT)s t;
+  qx_table3(&t);
+  unsigned int a, b; __CPROVER_assume(a < 3 && b < 3 && a != b);
+  %(REM)s(&t, &qx_keys[3], 1u);
+  for (unsigned int k = 0; k < 3; k++) __CPROVER_assert(%(HAS)s(&t, &qx_keys[k], 1u), "removing a key that is not stored removes nothing");
+  %(REM)s(&t, &qx_keys[a], 1u);
+  __CPROVER_assert(!%(HAS)s(&t, &qx_keys[a], 1u), "a removed key is no longer found");
+  for (unsigned int k = 0; k < 3; k++) if (k != a) __CPROVER_assert(%(HAS)s(&t, &qx_keys[k], 1u), "the other keys are still found after a removal");
+  %(REM)s(&t, &qx_keys[b], 1u);
+  __CPROVER_assert(!%(HAS)s(&t, &qx_keys[a], 1u) && !%(HAS)s(&t, &qx_keys[b], 1u), "removed keys stay removed");
+  for (unsigned int k = 0; k < 3; k++) if (k != a && k != b) __CPROVER_assert(%(HAS)s(&t, &qx_keys[k], 1u), "the remaining key is still found after two removals");
+  __CPROVER_assert(t.index_ == 3 && t.capacity_ == 4, "removal keeps the slots (order of the remaining entries is positional)");
+}
+''' % dict(HT=HT, REM=FN_REM, HAS=FN_HAS)
+    return dict(name='HashTable.Remove.lookup-after-remove', unit=HUNIT, fn=FN_REM, roots=[QHT + '::Remove(const char *, unsigned int)',
+                                                                                     QHT + '::Has(const char *, const unsigned int)', QHT + '::generateHash'],
+                specs={}, mode='raw', harness=h, cuts=['StringUtils_Hash__char'], solver='cadical', timeout=600, objbits=9, canary=False,
+                cbmc_flags=['--unwind', '6', '--unwinding-assertions'],
+                bounded='capacity 4, three stored one-unit keys with symbolic code units and symbolic hashes (all collision patterns); an absent key, then any stored key, then any second stored key is removed',
+                must_have=['assertion'],
+                clause='after Remove the real lookup finds exactly the keys that were not removed (head, middle and tail of a chain)')
+
+
+def insert_job():
+    """bounded stand-in: the real HList::Insert (find + HashTable::insert, no growth) on the same table: a fourth key with a symbolic hash is inserted, and a
+    stored key is inserted again; afterwards all four keys are found, the new key sits in the last slot, and the duplicate added nothing"""
+    FN_INS = HL + '_Insert__const_char_p_const_unsigned_int'
+    FN_HAS = HT + '_Has__const_char_p_const_unsigned_int_c'
+    FN_GKI = HT + '_GetKeyIndex__unsigned_int_r_const_char_p_const_unsigned_int_c'
+    h = _table3() + '''
+void qx_harness(void)
+{
+  struct %(HL)s l;
+  qx_table3(&l.qx_base);
+  unsigned int a; __CPROVER_assume(a < 3);
+  %(INS)s(&l, &qx_keys[a], 1u);
+  __CPROVER_assert(l.qx_base.index_ == 3, "inserting a stored key adds no entry");
+  %(INS)s(&l, &qx_keys[3], 1u);
+  __CPROVER_assert(l.qx_base.index_ == 4 && l.qx_base.capacity_ == 4, "inserting a new key below capacity adds exactly one entry and does not grow");
+  for (unsigned int k = 0; k < 4; k++) {
+    unsigned int idx;
+    __CPROVER_assert(%(HAS)s(&l.qx_base, &qx_keys[k], 1u), "every stored key is found after an insertion");
+    __CPROVER_assert(%(GKI)s(&l.qx_base, &idx, &qx_keys[k], 1u) && idx == k, "every key keeps its insertion position");
+  }
+}
+''' % dict(HL=HL, INS=FN_INS, HAS=FN_HAS, GKI=FN_GKI)
+    return dict(name='HList.Insert.lookup-after-insert', unit=HUNIT, fn=FN_INS, roots=[QHL + '::Insert(const char *, const unsigned int)',
+                                                                                 QHT + '::Has(const char *, const unsigned int)', QHT + '::generateHash',
+                                                                                 QHT + '::GetKeyIndex(unsigned int &, const char *, const unsigned int)'],
+                specs={}, mode='raw', harness=h, cuts=['StringUtils_Hash__char'], solver='cadical', timeout=600, objbits=9, canary=False,
+                cbmc_flags=['--unwind', '6', '--unwinding-assertions'],
+                bounded='capacity 4, three stored one-unit keys with symbolic code units and symbolic hashes (all collision patterns); a stored key and then a fourth key with a symbolic hash are inserted (no growth)',
+                must_have=['assertion'],
+                clause='after Insert the real lookup finds the new key and every old key at its insertion position; a duplicate adds nothing')
+
+
 _jobs_c13 = jobs
 
 
@@ -211,4 +297,4 @@ def jobs(tier):
     # the bounded map-model scenarios below do not fit: CBMC runs out of memory (14 GB) while converting the SSA of even one five-operation
     # scenario of the real HashTable code (quicksort recursion, chain walks, re-hash).  Kept for the record, not run.
     unfinished = [map_model_job(n, ops) for n, ops in SCENARIOS.items()]
-    return _jobs_c13(tier) + [generate_hash_job(c) for c in (1, 2, 4, 8)] + [rename_job()]
+    return _jobs_c13(tier) + [generate_hash_job(c) for c in (1, 2, 4, 8)] + [rename_job(), remove_job(), insert_job()]
